@@ -340,6 +340,9 @@ def step (s : St) (op : Op) : St :=
     (((s.modify id false src).maybeProcess).modify id true dst).maybeProcess
   | .newPin pin shape cls =>
     if !s.hasShape shape then s.addFault (.notAllocated shape) else
+    -- the constructor registers the pin (⇒ processTransaction when transactions are off) before the pin's
+    -- vertex exists; rerouting a connector attached to the shape dereferences it (connend.cpp:292)
+    let s := if !s.consolidate && s.attachedCount shape != 0 then s.addFault (.reentry pin) else s
     ((s.addPin pin shape cls).enqueue .pinChange pin).maybeProcess
   | .deleteShape id => deleteObstacleOp s id false
   | .deleteJunction id => deleteObstacleOp s id true
@@ -420,7 +423,7 @@ def LegalDoc (s : St) (op : Op) : Bool :=
     K2 deleteShape/deleteJunction assert when the object's addition is still queued;
     K3 with transactions off, processActions/~Router re-enter processTransaction through
        modifyConnectionPin (obstacle with pins deleted) or modifyConnector (obstacle with attached
-       connectors moved);
+       connectors moved), and a pin constructor routes before the pin is complete;
     K4 a queued connector-end change that names an obstacle is used after that obstacle was freed in
        the same transaction;
     K5 `ConnRef(router, src, dst)` with transactions off routes before the connector is registered. -/
@@ -428,6 +431,7 @@ def Legal (s : St) (op : Op) : Bool :=
   LegalDoc s op &&
   match op with
   | .newConn _ _ _ ctor3 => !ctor3 || s.consolidate                                  -- K5
+  | .newPin _ shape _ => s.consolidate || s.attachedCount shape == 0                 -- K3 (pin constructor)
   | .deleteShape id =>
     !s.hasAction .shapeAdd id &&                                                     -- K2
     !s.actions.any (mentions · id) &&                                                -- K4
